@@ -446,83 +446,87 @@ func checkRelationshipCreate(r *Run, p *Prog) {
 			why = "validateResourcesExist does not cover both endpoints"
 		}
 		r.ObPath("C16.R3.create", "both endpoints are validated before the edge is created in "+fn.Top().Name, p.Position(cs.Call.Pos()), okV, why, path)
-		okC, why2, p2, selfOK, why3, p3 := cycleGuards(p, fn, desc, from, to, []Point{cp})
-		if len(CallsIn(fn, calleeIs(desc))) == 0 {
-			// the two tests extracted into a package-local guard: the guard returns nil only
-			// behind both tests, and the create runs only after the guard succeeded
-			okC, selfOK = false, false
-			for _, hc := range CallsIn(fn, func(o types.Object, call *ast.CallExpr) bool {
-				f, ok := o.(*types.Func)
-				if !ok || p.ByObj[f] == nil || p.ByObj[f].Body == nil || f.Pkg() != fn.Pkg.Types {
-					return false
+		// cycle and self tests by truth table (E17): over "source == target" and "the source is
+		// among the descendants of the target", the create is possible only when both are false
+		top := fn.Top()
+		role := func(ev *ttEval, st *ttState, f *FuncNode, x ast.Expr) string {
+			f2, x2 := ev.resolve(st, f, x)
+			x2 = ast.Unparen(x2)
+			if o := objOf(f2, x2); o != nil {
+				switch {
+				case o == from && f2.Top() == top:
+					return "from"
+				case o == to && to != nil && f2.Top() == top:
+					return "to"
 				}
-				sig := f.Type().(*types.Signature)
-				return sig.Results().Len() == 1 && isErrorType(sig.Results().At(0).Type()) && len(CallsIn(p.ByObj[f], calleeIs(desc))) > 0
-			}) {
-				h := p.ByObj[CalleeFunc(fn, hc)]
-				var hFrom, hTo types.Object
-				for i, a := range hc.Args {
-					switch {
-					case objOf(fn, a) == from:
-						hFrom = paramObj(h, i)
-					case objOf(fn, a) == to && to != nil:
-						hTo = paramObj(h, i)
-					default:
-						if sl, ok := ast.Unparen(a).(*ast.SelectorExpr); ok && sl.Sel.Name == "To" {
-							hTo = paramObj(h, i)
-						} else if rng, ok := enclosingLoop(fn, a).(*ast.RangeStmt); ok && rng.Value != nil && objOf(fn, rng.Value) == objOf(fn, a) && objOf(fn, rng.X) == to {
-							hTo = paramObj(h, i)
-						}
-					}
-				}
-				if hFrom == nil || hTo == nil {
-					why2, why3 = "the guard "+h.Name+" is not given the source and the target", "the guard "+h.Name+" is not given the source and the target"
-					continue
-				}
-				// exits of the guard that can return nil
-				hc2 := p.CFG(h)
-				var nilExits []Point
-				for _, ex := range hc2.Exits() {
-					if ex.Return == nil || len(ex.Return.Results) != 1 {
-						nilExits = append(nilExits, ex.P)
-						continue
-					}
-					res := ast.Unparen(ex.Return.Results[0])
-					if sl, ok := res.(*ast.SelectorExpr); ok {
-						if v, ok := h.Pkg.TypesInfo.Uses[sl.Sel].(*types.Var); ok && v.Parent() == v.Pkg().Scope() {
-							continue // a package-level error value
-						}
-					}
-					if id, ok := res.(*ast.Ident); ok && !isNilIdent(h, id) {
-						if o := objOf(h, id); o != nil {
-							if v, ok := o.(*types.Var); ok && v.Parent() == v.Pkg().Scope() {
-								continue
-							}
-							nn := errNonNilEdges(hc2, o)
-							_, vis := hc2.ReachAvoiding([]Point{hc2.Entry()}, nn, nil)
-							if len(nn) > 0 && !vis[ex.P] {
-								continue // returned only behind err != nil
-							}
-						}
-					}
-					nilExits = append(nilExits, ex.P)
-				}
-				okC, why2, p2, selfOK, why3, p3 = cycleGuards(p, h, desc, hFrom, hTo, nilExits)
-				var pth []string
-				var w string
-				if lp, isLoop := enclosingLoop(fn, hc).(*ast.RangeStmt); isLoop {
-					pth, w = c.succeededInLoopBefore(hc, lp, cp)
-				} else {
-					pth, w = c.succeededBefore(hc, cp)
-				}
-				if pth != nil || w != "" {
-					okC, selfOK = false, false
-					why2, p2, why3, p3 = "guard "+h.Name+": "+w, pth, "guard "+h.Name+": "+w, pth
+				if rng, ok := enclosingLoop(f2, x2).(*ast.RangeStmt); ok && rng.Value != nil && objOf(f2, rng.Value) == o && objOf(f2, rng.X) == to && to != nil {
+					return "to"
 				}
 			}
+			if sl, ok := x2.(*ast.SelectorExpr); ok {
+				switch sl.Sel.Name {
+				case "To":
+					return "to"
+				case "From":
+					return "from"
+				}
+			}
+			return ""
 		}
-		r.ObPath("C16.R3.create", "the edge is created only when the source is not a descendant of the target in "+fn.Top().Name, p.Position(cs.Call.Pos()), okC, why2, p2)
-		r.ObPath("C16.R3.self", "a relationship from a resource to itself is refused in "+fn.Top().Name, p.Position(cs.Call.Pos()), selfOK, why3+" (a self edge is a cycle and makes retrieveDescendants recurse without end)", p3)
+		classify := func(ev *ttEval, st *ttState, f *FuncNode, e ast.Expr) (string, bool, bool) {
+			switch v := ast.Unparen(e).(type) {
+			case *ast.BinaryExpr:
+				if v.Op == token.EQL || v.Op == token.NEQ {
+					a, b := role(ev, st, f, v.X), role(ev, st, f, v.Y)
+					if a != "" && b != "" && a != b {
+						return "self", v.Op == token.NEQ, true
+					}
+				}
+			case *ast.IndexExpr:
+				f2, m := ev.resolve(st, f, v.X)
+				call, ok := ast.Unparen(m).(*ast.CallExpr)
+				if !ok {
+					return "", false, false
+				}
+				if g := CalleeFunc(f2, call); g == nil || g != desc.Obj || len(call.Args) != 2 {
+					return "", false, false
+				}
+				if role(ev, st, f2, call.Args[1]) == "to" && role(ev, st, f, v.Index) == "from" {
+					return "descendant", false, true
+				}
+			}
+			return "", false, false
+		}
+		outcome := func(f *FuncNode, ret *ast.ReturnStmt, results []ttVal) string {
+			if ret != nil && contains(ret, cs.Call) {
+				return "create"
+			}
+			return ttErrOutcome(ret, results)
+		}
+		table, bad := ttTable(p, top, []string{"self", "descendant"}, classify, outcome, true, func(f *types.Func) bool {
+			return f == desc.Obj || f == validate.Obj || f == exists.Obj
+		})
+		if bad != "" {
+			r.Undecide("C16.R3: %s could not be evaluated: %s", top.Name, bad)
+			continue
+		}
+		creates := table[0]["create"]
+		okC, selfOK := creates, creates
+		for mask, outs := range table {
+			if !outs["create"] {
+				continue
+			}
+			if mask&1 != 0 {
+				selfOK = false
+			}
+			if mask&2 != 0 {
+				okC = false
+			}
+		}
+		r.Ob("C16.R3.create", "the edge is created only when the source is not a descendant of the target in "+top.Name, p.Position(cs.Call.Pos()), okC,
+			"the create is possible although the source is among retrieveDescendants(target) (truth table over the self and descendant tests)")
+		r.Ob("C16.R3.self", "a relationship from a resource to itself is refused in "+top.Name, p.Position(cs.Call.Pos()), selfOK,
+			"the create is possible although source == target (a self edge is a cycle and makes retrieveDescendants recurse without end)")
 	}
 	// DefineRelationship: an existing edge is a no-op returning nil (err is nil on that path)
 	if def := p.Func(ontPkg, "dagWriter", "DefineRelationship"); def != nil {
